@@ -19,7 +19,8 @@ import subprocess
 import sys
 import time
 
-ROOT = "/verif"
+# VERIF_ROOT: a private clone of this tree (builders work in clones; registered commands always use /verif)
+ROOT = os.environ.get("VERIF_ROOT", "/verif")
 # VERIF_REPO: run the checks against a scratch worktree of the repository (mutation testing)
 # instead of /repo; build outputs then go to a separate directory.
 REPO = os.environ.get("VERIF_REPO", "/repo").rstrip("/") or "/repo"
